@@ -22,8 +22,12 @@
 (* One action per critical section of pendingLk / per client call:         *)
 (*   ReqStart    PublicRand up to the first look in getRand (RLock)        *)
 (*   ReqCheck2   second look under Lock: park, or fall through             *)
-(*   WatchItem   one iteration of watchWithTimeout on a received item      *)
-(*   StreamFail  the iteration on a closed channel (latestRound = 0)       *)
+(*   WatchItem   one iteration of watchWithTimeout on a received item: every *)
+(*               parked request is handed (round, json); it answers with it *)
+(*               only if that is its round and the json is not empty, else  *)
+(*               it fetches its round the regular way (repair of F12 a/b)   *)
+(*   StreamFail  the iteration on a closed channel: latestRound = 0 and the *)
+(*               parked requests are released to fetch for themselves       *)
 (*   Reconnect   Watch calls client.Watch again after the back-off         *)
 (*   IdleReconn  the expectedRoundDelayBackoff timer: new Watch, no reset  *)
 (*   Timeout     request context done while parked                         *)
@@ -65,8 +69,8 @@ TooFar(r, cu) == r > cu + 1
 
 \* watchWithTimeout: b = json(next); if latestRound+1 != next.round && latestRound != 0 { b = []byte{} }
 ItemBody(lat, x) == IF lat + 1 # x /\ lat # 0 THEN 0 ELSE x
-ItemVia(lat, x, r) == IF lat + 1 # x /\ lat # 0 THEN "item-skip"
-                      ELSE IF lat = 0 /\ x # r THEN "item-reset" ELSE "item"
+\* getRand, released with watchUpdate{round: x, data: b}: r.round == round && len(r.data) > 0
+ItemServes(lat, x, r) == x = r /\ ItemBody(lat, x) # 0
 
 \* getRand after it decided not to block: future round -> nil (404); else client.Get(round)
 Direct(r, cu, hd) == IF r > cu THEN [status |-> 404, body |-> -1]
@@ -88,10 +92,6 @@ RightRound(rsp) == (rsp.status = 200 /\ rsp.body # 0) =>
                       IF rsp.round > 0 THEN rsp.body = rsp.round ELSE rsp.body >= 1
 RespOK(rsp) == NoEmpty200(rsp) /\ RightRound(rsp)
 Mon_C01_HTTP(o) == \A rsp \in o : RespOK(rsp)
-
-\* the two shapes in which the transcribed code breaks the monitor (F12 a / b)
-KnownShape(rsp) == \/ rsp.via = "item-skip" /\ rsp.status = 200 /\ rsp.body = 0
-                   \/ rsp.via = "item-reset" /\ rsp.status = 200 /\ rsp.body # rsp.round /\ rsp.body >= 1
 
 -----------------------------------------------------------------------------
 Init == /\ latest = 0 /\ pending = {} /\ req = [w \in W |-> IdleReq]
@@ -130,12 +130,16 @@ ReqCheck2(w) ==
             /\ req' = [req EXCEPT ![w] = IdleReq]
             /\ UNCHANGED pending
 
+\* a released request whose round was not served by the watch loop goes on like one that never parked
+Refetch(w, via) == LET d == Direct(req[w].round, cur, head) IN Resp(w, req[w].round, d.status, d.body, via)
+
 WatchItem(x) ==
   /\ stream = "conn"
   /\ x \in 1..head
   /\ Monotone => x > sent
   /\ act' = <<"WatchItem", x>>
-  /\ out' = {Resp(w, req[w].round, 200, ItemBody(latest, x), ItemVia(latest, x, req[w].round)) : w \in pending}
+  /\ out' = {IF ItemServes(latest, x, req[w].round) THEN Resp(w, req[w].round, 200, x, "item")
+                                                    ELSE Refetch(w, "item-refetch") : w \in pending}
   /\ latest' = x
   /\ pending' = {}
   /\ req' = [w \in W |-> IF w \in pending THEN IdleReq ELSE req[w]]
@@ -146,9 +150,11 @@ StreamFail ==
   /\ stream = "conn"
   /\ act' = <<"StreamFail">>
   /\ stream' = "backoff"
-  /\ latest' = 0                         \* the waiters stay in bh.pending
-  /\ out' = {}
-  /\ UNCHANGED <<pending, req, sent, head, cur>>
+  /\ latest' = 0
+  /\ out' = {Refetch(w, "fail-refetch") : w \in pending}     \* releasePending(watchUpdate{})
+  /\ pending' = {}
+  /\ req' = [w \in W |-> IF w \in pending THEN IdleReq ELSE req[w]]
+  /\ UNCHANGED <<sent, head, cur>>
 
 Reconnect ==
   /\ stream = "backoff"
@@ -215,16 +221,15 @@ TypeOK == /\ latest \in 0..MaxRound /\ head \in 0..MaxRound /\ cur \in 1..MaxRou
 \* bh.pending holds exactly the parked requests; nothing is parked before the watch started
 Inv_Pending == /\ pending = {w \in W : req[w].pc = "parked"}
                /\ stream = "off" => (pending = {} /\ latest = 0)
-               /\ stream = "backoff" => latest = 0
+               /\ stream = "backoff" => (latest = 0 /\ pending = {})
+\* a request stays parked only while the watch loop is exactly one round behind it
+Inv_ParkedNext == \A w \in pending : latest # 0 /\ latest + 1 = req[w].round
 
-\* C01 on the design: expected to FAIL (F12); the counterexamples are replayed on the real handler
+\* C01 on the design (failed in two shapes before the repair of F12 a/b: empty 200 after a skipped
+\* round; another round after a stream reset - MC_HttpRelay_f12a / _f12b keep searching for them)
 Inv_C01_HTTP == Mon_C01_HTTP(out)
 Inv_NoEmpty200 == \A rsp \in out : NoEmpty200(rsp)
 Inv_RightRound == \A rsp \in out : RightRound(rsp)
-\* (used to obtain the realistic instance of F12b: a LATER round than the one asked for)
+\* (the realistic instance of F12b: a LATER round than the one asked for)
 Inv_NoLaterRound == \A rsp \in out : (rsp.status = 200 /\ rsp.round > 0) => rsp.body <= rsp.round
-\* ... and nothing but those two shapes breaks it
-Inv_OnlyKnownShapes == \A rsp \in out : RespOK(rsp) \/ KnownShape(rsp)
-\* answers that do not come from the watch loop are always right
-Inv_DirectRight == \A rsp \in out : rsp.via \notin {"item-skip", "item-reset"} => RespOK(rsp)
 =============================================================================
